@@ -72,6 +72,8 @@ fn read_one<S: Source + ?Sized>(src: &S, bytes: &[u8], off: usize, cases: &mut u
             }
         }
     }
+    // the zero-sized chunk is a chunk like any other: Some exactly when off <= len
+    check_read_n!(src, bytes, off, 0, c, s);
     check_read_n!(src, bytes, off, 1, c, s);
     check_read_n!(src, bytes, off, 2, c, s);
     check_read_n!(src, bytes, off, 3, c, s);
@@ -88,12 +90,17 @@ fn read_one<S: Source + ?Sized>(src: &S, bytes: &[u8], off: usize, cases: &mut u
     check_read_n!(src, bytes, off, 14, c, s);
     check_read_n!(src, bytes, off, 15, c, s);
     check_read_n!(src, bytes, off, 16, c, s);
+    check_read_n!(src, bytes, off, 17, c, s);
+    check_read_n!(src, bytes, off, 24, c, s);
+    check_read_n!(src, bytes, off, 31, c, s);
     check_read_n!(src, bytes, off, 32, c, s);
+    check_read_n!(src, bytes, off, 33, c, s);
+    check_read_n!(src, bytes, off, 64, c, s);
     *cases += c;
     *some += s;
 }
 
-/// C05 (iv): Source::read::<u8 | &[u8;1..=16] | &[u8;32]> for str, [u8], String, Vec<u8>, &str, Box<str>
+/// C05 (iv): Source::read::<u8 | &[u8;0..=17] | &[u8;24|31|32|33|64]> for str, [u8], String, Vec<u8>, &str, Box<str>
 fn sub_read(small: bool) {
     let max_len = if small { 12 } else { 40 };
     let (mut cases, mut some) = (0usize, 0usize);
